@@ -95,13 +95,32 @@ CountBoth(P, Q, i) == IF i > Len(P) \/ i > Len(Q) THEN 0
 
 Set(v, f, val) == IF v[f] = "ok" THEN [v EXCEPT ![f] = val] ELSE v
 
+(* Named deviation "RshiftDropsStores": with no-aliasing on and memory tracing off the stores of a map live
+   only in its memory zones, and sigma0 >> map (rcompose) iterates over the map items only: the byte keeps
+   the value it has in sigma0.  A memory difference of exactly that shape is recorded under `dropped`, it
+   is not the trace's Lockstep failure (known_findings decides whether the deviation is listed). *)
+AddrNatL(a) == IF Len(a) = 1 THEN a[1]
+               ELSE IF a[2] < 16384 /\ \A i \in 3..Len(a) : a[i] = 0 THEN a[1] + 65536 * a[2] ELSE -1
+Stale(x) == /\ T.noal = 1 /\ T.mt = 0
+            /\ LET ad == AddrNatL(x.a) IN ad >= 0 /\ ad \in DOMAIN env.mem /\ env.mem[ad] = x.v
+RECURSIVE FirstDiffM(_, _, _, _)
+FirstDiffM(P, Q, i, skipstale) ==
+  IF Len(P) # Len(Q) THEN -1
+  ELSE IF i > Len(P) THEN 0
+  ELSE IF P[i].c = 1 /\ Q[i].c = 1 /\ P[i].v # Q[i].v /\ ~(skipstale /\ Stale(Q[i])) THEN i
+  ELSE FirstDiffM(P, Q, i + 1, skipstale)
+RECURSIVE CountStale(_, _, _)
+CountStale(P, Q, i) ==
+  IF Len(P) # Len(Q) \/ i > Len(P) THEN 0
+  ELSE (IF P[i].c = 1 /\ Q[i].c = 1 /\ P[i].v # Q[i].v /\ Stale(Q[i]) THEN 1 ELSE 0) + CountStale(P, Q, i + 1)
+
 (* compare registers P (reference route) with Q (symbolic route), then memory *)
 Cmp(v, f, st, P, Q, mP, mQ, pn, qn) ==
   LET i == FirstDiff(P, Q, 1) IN
   IF i = -1 THEN Set(v, f, ToJson([step |-> st.k, kind |-> "align"]))
   ELSE IF i > 0 THEN Set(v, f, ToJson([step |-> st.k, kind |-> "reg", loc |-> P[i].n, w |-> P[i].w,
                                          ref |-> P[i].v, got |-> Q[i].v, refroute |-> pn, route |-> qn]))
-  ELSE LET j == FirstDiff(mP, mQ, 1) IN
+  ELSE LET j == FirstDiffM(mP, mQ, 1, qn = "B") IN
        IF j = -1 THEN Set(v, f, ToJson([step |-> st.k, kind |-> "malign"]))
        ELSE IF j > 0 THEN Set(v, f, ToJson([step |-> st.k, kind |-> "mem", loc |-> mP[j].a, w |-> 8,
                                               ref |-> <<mP[j].v>>, got |-> <<mQ[j].v>>,
@@ -128,11 +147,15 @@ RefCount(M, P, i) ==
 
 RaiseKind(s) == s   \* "" | exception name; "build:X" / "apply:X" on the symbolic route
 Raised(st) == st.ra # "" \/ st.rb # "" \/ st.rx # ""
+IsTimeout(x) == x \in {"RouteTimeout", "build:RouteTimeout", "apply:RouteTimeout", "eval:RouteTimeout", "observe:RouteTimeout"}
+TimedOut(st) == IsTimeout(st.ra) \/ IsTimeout(st.rb) \/ IsTimeout(st.rx) \/ IsTimeout(st.re)
 
 CheckStep(v, st) ==
   LET inside == IF T.noal = 0 THEN "yes" ELSE IF st.accok = 0 THEN "undecided" ELSE DisjointAcc(st.acc) IN
   IF inside # "yes"
   THEN [v EXCEPT !.outside = @ + (IF inside = "no" THEN 1 ELSE 0), !.undecided = @ + (IF inside = "undecided" THEN 1 ELSE 0)]
+  ELSE IF TimedOut(st)
+  THEN [v EXCEPT !.timeouts = @ + 1]      \* a route exceeded its CPU budget: no value to compare, not a verdict
   ELSE IF Raised(st)
   THEN (IF st.ra # "" /\ st.rb # ""
         THEN [v EXCEPT !.bothraise = @ + 1]
@@ -152,6 +175,7 @@ CheckStep(v, st) ==
                   !.symB = @ + CountC(st.B, 0, 1) + CountC(st.mB, 0, 1),
                   !.symA = @ + CountC(st.A, 0, 1) + CountC(st.mA, 0, 1),
                   !.refd = @ + (IF st.deep = 1 THEN RefCount(st.map, st.A, 1) ELSE 0),
+                  !.dropped = @ + CountStale(st.mA, st.mB, 1),
                   !.judged = @ + 1]
 
 Init == /\ TLCSet(7, ndJsonDeserialize(IOEnv.TRACE_FILE))
@@ -160,7 +184,7 @@ Init == /\ TLCSet(7, ndJsonDeserialize(IOEnv.TRACE_FILE))
         /\ env = IF "steps" \in DOMAIN Traces[tid] THEN EnvOf(Traces[tid]) ELSE [regs |-> <<>>, mem |-> <<>>]
         /\ verdict = [lock |-> "ok", evl |-> "ok", exact |-> "ok", raise |-> "ok", ref |-> "ok",
                       cmp |-> 0, symB |-> 0, symA |-> 0, refd |-> 0, judged |-> 0,
-                      outside |-> 0, undecided |-> 0, bothraise |-> 0]
+                      outside |-> 0, undecided |-> 0, bothraise |-> 0, dropped |-> 0, timeouts |-> 0]
         /\ done = FALSE
 
 NSteps == IF "steps" \in DOMAIN T THEN Len(T.steps) ELSE 0
